@@ -82,7 +82,8 @@ def make_judges(ctx):
             return
         x = snaps[0]
         shaped = snaps[:1] if cname == 'clip' else snaps      # (the bounds of clip can be fixed-point scalars)
-        if any(not (1 <= s.n_word <= 12 and -8 <= s.n_frac <= s.n_word + 8) or len(s.codes) > 9 for s in snaps) or any(len(s.shape) == 0 or len(s.shape) > 2 for s in shaped):
+        if any(not (1 <= s.n_word <= 12 and -8 <= s.n_frac <= s.n_word + 8) or len(s.codes) > 9 for s in shaped) or any(len(s.shape) == 0 or len(s.shape) > 2 for s in shaped) \
+                or any(s.n_word > 53 or len(s.codes) > 9 for s in snaps):
             ctx.skip('red:operand outside the quantifier (n_word<=12, -8<=n_frac<=n_word+8, up to 3x3 / length 8)')
             return
         # exact evaluation
@@ -193,6 +194,7 @@ def floors(tier):
     cells = [(f, r) for f in ('sum', 'cumsum', 'prod', 'cumprod', 'max', 'min', 'clip', 'transpose', 'diagonal', 'trace', 'dot') for r in ('numpy', 'method')]
     cells += [('sort', 'numpy'), ('sort', 'method'), ('matmul', 'numpy'), ('transpose_axes',)]
     cells += [('clip_bounds', b) for b in ('float/float', 'ndarray/ndarray', 'list/list', 'Fxp/Fxp', 'float/none', 'none/float')]
+    cells += [('clip_bounds_other_format',)]
     cells += [('edge_format', f) for f in ('sum', 'cumsum', 'prod', 'cumprod', 'dot', 'clip', 'max', 'sort')]
     return cells
 
@@ -272,6 +274,19 @@ def run_case(case, ctx):
         if flo is not None and fhi is not None:
             _try(lambda: np.clip(x, flo, fhi))
             _try(lambda: x.clip(flo, fhi))
+        # fixed-point bounds held in OTHER formats (coarser / finer fraction, other word, other signedness) that represent the bound exactly
+        nfb = nf + rng.choice([-2, -1, 1, 2, 3])
+        lo_v, hi_v = F(a) * R.lsb(nf), F(b) * R.lsb(nf)
+        if nfb < nf:
+            lo_v, hi_v = lo_v - lo_v % R.lsb(nfb), hi_v - hi_v % R.lsb(nfb)     # (representable in the coarser grid)
+        blo = _try(lambda: Fxp(float(lo_v), True, 24, nfb))
+        bhi = _try(lambda: Fxp(float(hi_v), True, 20, max(nfb, nf + 1) if nfb >= nf else nfb))
+        in_x_range = F(lo) * R.lsb(nf) <= lo_v <= hi_v <= F(hi) * R.lsb(nf)      # (a bound outside x's own range is not representable in the result)
+        if in_x_range and blo is not None and bhi is not None and F(int(np.asarray(blo.val).item())) * R.lsb(blo.n_frac) == lo_v and F(int(np.asarray(bhi.val).item())) * R.lsb(bhi.n_frac) == hi_v:
+            _try(lambda: np.clip(x, blo, bhi))
+            _try(lambda: x.clip(blo, bhi))
+            _try(lambda: np.clip(x, blo, amax))
+            ctx.floor_hit(('clip_bounds_other_format',))
     _try(lambda: np.clip(x, amin, None))
     _try(lambda: x.clip(a_max=amax))
     _try(lambda: np.clip(x, None, amax))
